@@ -74,6 +74,10 @@ class Prov:
         self.memo = {}
         self.inprog = set()
         self.cyclic = False
+        self.ctx = []            # call-string context: [(caller path, bb), ...]
+        self.max_ctx = 4
+        self.max_steps = 150000  # per origins() query
+        self.exhausted = False
         self._agg_index = None
         self._mut_index = {}
         self._field_writes = None
@@ -83,6 +87,7 @@ class Prov:
     def origins(self, f, x, pi=()):
         """x: operand or place."""
         res = None
+        self.steps = 0
         for _ in range(4):
             self.cyclic = False
             res = self._operand(f, x, tuple(pi)) if x and x[0] in ("cp", "mv", "k") \
@@ -124,7 +129,7 @@ class Prov:
     def _local(self, f, local, pi):
         if len(pi) > self.max_pi:
             return frozenset([("unknown", "projection too deep")])
-        key = (f.path, local, pi)
+        key = (f.path, local, pi, tuple(self.ctx))
         if key in self.memo:
             return self.memo[key]
         if key in self.inprog:
@@ -133,8 +138,17 @@ class Prov:
             if prev and key in prev:
                 return prev[key]
             return frozenset()
+        self.steps = getattr(self, "steps", 0) + 1
+        if self.steps > self.max_steps:
+            self.exhausted = True
+            return frozenset([("unknown", "analysis budget exhausted")])
         self.inprog.add(key)
         out = set()
+        self._depth = getattr(self, "_depth", 0) + 1
+        if self._depth > 300:
+            self._depth -= 1
+            self.inprog.discard(key)
+            return frozenset([("unknown", "resolution too deep")])
         try:
             if 1 <= local <= f.arg_count:
                 out |= self._param(f, local, pi)
@@ -157,6 +171,7 @@ class Prov:
                             out |= self._operand(f, a, (ANY,))
         finally:
             self.inprog.discard(key)
+            self._depth -= 1
         res = frozenset(out)
         self.memo[key] = res
         return res
@@ -308,7 +323,7 @@ class Prov:
             if g.impl_trait == "std::clone::Clone" and g.from_expansion and c.args:
                 # derive(Clone): the result is a faithful copy of *arg0
                 return self._operand(f, c.args[0], ("*",) + tuple(pi))
-            return self._local(g, 0, pi)
+            return self._enter(f, c, g, pi)
         if d in self.identity or c.res in self.identity:
             if c.args:
                 a = c.args[0]
@@ -347,6 +362,28 @@ class Prov:
                                 out |= self._local(g2, 0, (ANY,))
         return frozenset(out)
 
+    def _enter(self, f, c, g, pi):
+        """Resolve the return place of local callee g for call c in f, keeping
+        the call site as context so that g's parameters resolve to this site's
+        arguments (call-string sensitivity, bounded)."""
+        if len(self.ctx) >= self.max_ctx:
+            return self._local(g, 0, pi)
+        self.ctx.append((f.path, c.bb, g.path))
+        try:
+            return self._local(g, 0, pi)
+        finally:
+            self.ctx.pop()
+
+    def _at_context_site(self, f):
+        """If the innermost context entered f, return (caller fn, call)."""
+        if self.ctx and self.ctx[-1][2] == f.path:
+            caller = self.prog.fns.get(self.ctx[-1][0])
+            if caller is not None:
+                c = caller.call_at(self.ctx[-1][1])
+                if c is not None:
+                    return caller, c
+        return None
+
     # ---- parameters -------------------------------------------------------
     def _param(self, f, n, pi):
         prog = self.prog
@@ -379,6 +416,16 @@ class Prov:
                     return out
                 return {("unknown", "closure environment used whole")}
             # ordinary closure argument: call sites pass (env, tuple)
+            site = self._at_context_site(f)
+            if site is not None:
+                g, c = site
+                args = self._closure_call_args(g, c)
+                if args is not None and n - 2 < len(args):
+                    saved = self.ctx.pop()
+                    try:
+                        return set(self._operand(g, args[n - 2], pi))
+                    finally:
+                        self.ctx.append(saved)
             sites = prog.callers_of(f.path)
             for c in sites:
                 g = c.fn
@@ -397,15 +444,44 @@ class Prov:
             if not sites and not hof:
                 out.add(("param", f.path, n, pi))
             return out
+        site = self._at_context_site(f)
+        if site is not None:
+            g, c = site
+            if not c.is_ptr and n - 1 < len(c.args):
+                saved = self.ctx.pop()
+                try:
+                    return set(self._operand(g, c.args[n - 1], pi))
+                finally:
+                    self.ctx.append(saved)
         # field-based shortcut for crate ADT fields
         if self.field_based:
-            fb = self._field_based(pi)
+            saved_ctx = self.ctx
+            self.ctx = []
+            try:
+                fb = self._field_based(pi)
+            finally:
+                self.ctx = saved_ctx
             if fb is not None:
                 return fb
         if self.lalrpop_bridge and f.generated and "::__action" in f.path:
-            br = self._lalrpop_bridge(f, n, pi)
+            saved_ctx = self.ctx
+            self.ctx = []
+            try:
+                br = self._lalrpop_bridge(f, n, pi)
+            finally:
+                self.ctx = saved_ctx
             if br is not None:
                 return br
+        saved_ctx = self.ctx
+        self.ctx = []
+        try:
+            return self._param_all_sites(f, n, pi)
+        finally:
+            self.ctx = saved_ctx
+
+    def _param_all_sites(self, f, n, pi):
+        prog = self.prog
+        out = set()
         sites = prog.callers_of(f.path)
         for c in sites:
             if n - 1 < len(c.args):
